@@ -165,4 +165,52 @@ theorem filter_map_and {α β} (xs : List α) (m : α → β) (p1 p2 : β → Bo
     · by_cases h2 : p2 (m x) = true <;> simp [List.filter_cons, h x, hq, h2, ih]
     · simp [List.filter_cons, h x, hq, ih]
 
+-- hash / merge join keys are read from one input each -------------------------------------------------
+
+/-- An expression that reads within `A ∪ B` and is independent of `B` reads within `A`. -/
+theorem readsWithin_of_union_indep {α} (e : Env → α) (A B : Col → Bool)
+    (hw : ReadsWithin e (fun x => A x || B x)) (hi : Indep e B) : ReadsWithin e A := by
+  intro ρ ρ' h
+  have h1 : e ρ = e (fun x => if A x || B x then ρ x else ρ' x) :=
+    hw ρ _ (by intro x hx; simp only [hx, if_true])
+  have h2 : e (fun x => if A x || B x then ρ x else ρ' x) = e ρ' := by
+    apply hi
+    intro x hx
+    by_cases ha : A x = true
+    · simp only [ha, Bool.true_or, if_true]; exact h x ha
+    · have : (A x || B x) = false := by simp [ha, hx]
+      simp only [this, Bool.false_eq_true, if_false]
+  rw [h1, h2]
+
+theorem readsWithin_union_comm {α} (e : Env → α) (A B : Col → Bool)
+    (hw : ReadsWithin e (fun x => A x || B x)) : ReadsWithin e (fun x => B x || A x) := by
+  intro ρ ρ' h
+  exact hw ρ ρ' (fun x hx => h x (by
+    have hx' : (A x || B x) = true := hx
+    show (B x || A x) = true
+    rw [Bool.or_comm]; exact hx'))
+
+/-- An expression that reads within `S` does not notice that the other columns are missing. -/
+theorem masked_eq {α} (e : Env → α) (S : Col → Bool) (h : ReadsWithin e S) (ρ : Env) :
+    e (maskTo S ρ) = e ρ :=
+  h _ _ (by intro x hx; simp [maskTo, hx])
+
+theorem keysOn_of_reads (S : Col → Bool) (ks : List VExpr) (h : ∀ e ∈ ks, ReadsWithin e S) :
+    keysOn S ks = ks := by
+  unfold keysOn
+  conv => rhs; rw [← List.map_id ks]
+  apply List.map_congr_left
+  intro e he
+  funext ρ
+  exact masked_eq e S (h e he) ρ
+
+/-- With keys that read their own side only, the hash join is the join on "keys equal and
+residual condition". -/
+theorem hashjoin_unmasked (t : JoinType) (c : BExpr) (lk rk : List VExpr) (L R : Rel)
+    (hl : ∀ e ∈ lk, ReadsWithin e L.owned) (hr : ∀ e ∈ rk, ReadsWithin e R.owned) :
+    hashjoin t c lk rk L R
+      = join t (fun ρ => some ((keysEq lk rk ρ == some true) && holds c ρ)) L R := by
+  unfold hashjoin
+  rw [keysOn_of_reads _ lk hl, keysOn_of_reads _ rk hr]
+
 end RlModel.P
